@@ -18,6 +18,9 @@ FRAGMENTS = {
     "string-same-line": ['print! "a\\"b\\n{{x}} x", {x@X}'],
     "lambda-shadow": ["{k@K} = ({x@LX}: Int) -> {x@LX} * 2", "print! {k@K}({x@X})"],
     "nonascii-string-same-line": ['print! "é😀 x", {x@X}'],
+    # two DIFFERENT bindings of the same name on one source line
+    "same-line-default-shadow": ["{h2@H2}({x@PX2} := {x@X}) = {x@PX2} + 1", "print! {h2@H2}()"],
+    "same-line-lambda-shadow": ["{ap@AP} {g0@G0}: Int -> Int, {v0@V0}: Int = {g0@G0} {v0@V0}", "{m@M} = {ap@AP}(({x@LX2}: Int) -> {x@LX2} * 2, {x@X})", "print! {m@M}"],
 }
 HEAD = ["{x@X} = 1"]
 
@@ -42,7 +45,7 @@ def expand(lines):
 def programs(tier):
     names = list(FRAGMENTS)
     if tier == "quick":
-        names = [n for n in names if n != "nonascii-string-same-line"]
+        names = [n for n in names if n not in ("nonascii-string-same-line", "lambda-shadow")]
         subsets = [c for r in (1, 2) for c in itertools.combinations(names, r)]
     else:
         subsets = [c for r in range(1, len(names) + 1) for c in itertools.combinations(names, r)]
